@@ -27,10 +27,12 @@ TRACE = 'ConnLifecycle/ConnLifecycleTrace.tla'
 MAX_CONNS = 24                      # ids per trace (ints in the TLA+ records)
 LISTEN, LISTEN_OBF = 61000, 61001
 
-EXPECT_ACTIONS = ['OutCreate', 'ServerConnect', 'ConnectBegin', 'ConnectOk', 'ConnectFail', 'ConnectCancelledOpen',
+EXPECT_ACTIONS = ['OutCreate', 'ServerConnect', 'ConnectBegin', 'ReportDone', 'ConnectOk', 'ConnectFail',
+                  'ConnectCancelledOpen', 'ConnectCancelledReport', 'ConnectCancelledInDisconnect',
                   'InitWrite', 'DrainResume', 'DrainTimeout', 'ConnectCancelledDrain', 'InitSent', 'InAccept',
                   'InitOk', 'InitFails', 'AcceptFinish', 'Deliver', 'Send', 'SendBlocked', 'SendResume',
-                  'WriteTimeout', 'WriteError', 'ReadEnds', 'Disconnect', 'DisconnectEnd']
+                  'SendWakeError', 'WriteTimeout', 'WriteError', 'ReadEnds', 'Disconnect', 'DiscGo', 'DisconnectEnd',
+                  'DiscDone']
 
 _LABEL = re.compile(r'^(\w+)\((.*)\)$')
 
@@ -76,6 +78,8 @@ class Recorder:
         self._unowned: list[tuple] = []      # (link, side) whose owner is not known yet
         self._owner: dict[tuple, int] = {}
         self.closed_at: dict[int, int] = {}  # id -> index of its CLOSED record
+        self.held_fn = None                  # callable(connection object) -> a report of it is held by the slow listener
+        self.wires: dict[int, int] = {}      # id -> number of wire records so far
         self._bus = simserver.BusRecorder(bus, ConnectionStateChangedEvent, MessageReceivedEvent,
                                           project=self._on_event)
         prev = net.on_link
@@ -125,6 +129,7 @@ class Recorder:
             if data and not _link.dead:
                 i = self.owner(_link, from_side)
                 if i:
+                    self.wires[i] = self.wires.get(i, 0) + 1
                     self.events.append(dict(ev='wire', c=i, n=len(data), reg=self.reg()))
             _orig(from_side, data)
         link._deliver = deliver
@@ -194,7 +199,12 @@ class Recorder:
         self._resolve()
         n = len(self.objs)
         self.events.append(dict(ev='q', reg=reg, att=[self._att(i) for i in range(1, n + 1)],
-                                sock=[self._sock(i) for i in range(1, n + 1)]))
+                                sock=[self._sock(i) for i in range(1, n + 1)],
+                                held=[bool(self.held_fn and self.held_fn(self.objs[i - 1])) for i in range(1, n + 1)]))
+
+    def sent(self, i, res, wrote):
+        if i:
+            self.events.append(dict(ev='sent', c=i, res=res, wrote=bool(wrote), reg=self.reg()))
 
     def stim(self, what: str, **kw):
         self.events.append(dict(ev='stim', what=what, **{k: v for k, v in kw.items() if v is not None}))
@@ -210,6 +220,7 @@ class Recorder:
             if e['ev'] == 'q':
                 e['att'] = e['att'] + ['none'] * (n - len(e['att']))
                 e['sock'] = e['sock'] + ['none'] * (n - len(e['sock']))
+                e['held'] = e['held'] + [False] * (n - len(e['held']))
             out.append(e)
         return out
 
@@ -243,6 +254,102 @@ def probe_init_message():
     return _PROBE_CLS[key]
 
 
+class SlowListener:
+    """An application listener of ConnectionStateChangedEvent that is a coroutine and suspends: while `active`, the
+    report of every peer/server connection (except those in `exclude`) is held until the driver releases it.  It is
+    registered after the Recorder, which therefore sees each report when it is made."""
+
+    def __init__(self, loop, bus):
+        from aioslsk.events import ConnectionStateChangedEvent
+        from aioslsk.network.connection import DataConnection
+        self._DC = DataConnection
+        self.loop = loop
+        self.active = False
+        self.only = None              # None: every state; else a set of state names to hold
+        self.exclude: list = []
+        self.held: list = []          # (connection, state name, future) in report order
+        self._cb = self._on_event     # strong reference: the bus holds listeners weakly
+        bus.register(ConnectionStateChangedEvent, self._cb)
+
+    async def _on_event(self, event):
+        conn = event.connection
+        if not self.active or not isinstance(conn, self._DC) or any(conn is x for x in self.exclude):
+            return
+        if self.only is not None and event.state.name not in self.only:
+            return
+        fut = self.loop.create_future()
+        entry = (conn, event.state.name, fut)
+        self.held.append(entry)
+        try:
+            await fut
+        finally:
+            if entry in self.held:
+                self.held.remove(entry)
+
+    def holds(self, conn) -> bool:
+        return any(c is conn and not f.done() for c, _, f in self.held)
+
+    def release(self, conn, states) -> bool:
+        for c, st, f in list(self.held):
+            if (conn is None or c is conn) and st in states and not f.done():
+                f.set_result(None)
+                return True
+        return False
+
+    def release_all(self):
+        self.active = False
+        for _, _, f in list(self.held):
+            if not f.done():
+                f.set_result(None)
+
+
+def install_backpressure(w):
+    """Give a SimWriter the drain() of a real transport under back-pressure: while `paused`, drain() blocks; it
+    returns when the driver resumes the writer and raises ConnectionResetError when the driver wakes it with an
+    error - which is what asyncio does to drain waiters once the connection is lost or closed."""
+    if getattr(w, '_c10_waiters', None) is not None:
+        return
+    w._c10_waiters = []
+
+    async def drain():
+        if w.fail_writes is not None:
+            raise w.fail_writes
+        if w.link.reset[w.side] is not None:
+            raise w.link.reset[w.side]
+        if w.paused:
+            if w._closing or w.link.dead:
+                raise ConnectionResetError('Connection lost')
+            fut = asyncio.get_running_loop().create_future()
+            w._c10_waiters.append(fut)
+            await fut
+        else:
+            await asyncio.sleep(0)
+
+    def wake(error: bool):
+        w.paused = False
+        waiters, w._c10_waiters[:] = list(w._c10_waiters), []
+        for fut in waiters:
+            if fut.done():
+                continue
+            if error:
+                fut.set_exception(ConnectionResetError('Connection lost'))
+            else:
+                fut.set_result(None)
+        return bool(waiters)
+    w.drain = drain
+    w.c10_wake = wake
+
+
+def wake_writer(w, error=None) -> bool:
+    """Resume blocked drain() calls: normally while the transport is open, with an error once it is closed / lost."""
+    if getattr(w, 'c10_wake', None) is None:
+        w.resume()
+        return False
+    if error is None:
+        error = bool(w._closing or w.link.dead)
+    return w.c10_wake(error)
+
+
 class ModelConn:
     def __init__(self, c, kind, obf):
         self.c, self.kind, self.obf = c, kind, obf
@@ -261,8 +368,10 @@ class ModelConn:
 
 
 class World:
-    def __init__(self, loop, chk_rng, *, connect_mode='fallback', server_auto=True, hold=True, burst=0.0):
+    def __init__(self, loop, chk_rng, *, connect_mode='fallback', server_auto=True, hold=True, burst=0.0,
+                 slow=False):
         self.loop = loop
+        self.slow = slow            # the slow listener holds every report of the model connections
         self.burst = burst          # probability that the next stimulus follows without letting the loop settle
         self.rng = chk_rng
         self.connect_mode = connect_mode
@@ -287,6 +396,8 @@ class World:
         self.bus = EventBus()
         self.network = Network(self.settings, self.bus)
         self.rec = Recorder(self.loop, self.net, self.network, self.bus)
+        self.listener = SlowListener(self.loop, self.bus)
+        self.rec.held_fn = self.listener.holds
         prev = self.net.on_link
 
         def on_link(link, _prev=prev):
@@ -301,6 +412,10 @@ class World:
             self.srv_att = 'running'
             self.srv_task = asyncio.create_task(self._server_connect())
             await vloop.settle(self.loop)
+        if self.slow:
+            if self.server_auto:
+                self.listener.exclude.append(self.network.server_connection)
+            self.listener.active = True
         self.rec.quiescent()
         return self
 
@@ -325,6 +440,7 @@ class World:
 
     def _apply_arm(self, mc):
         w = mc.link.writers[mc.side]
+        install_backpressure(w)
         if self.hold:
             w.hold_wait_closed = True
         if mc.arm.get('paused'):
@@ -398,7 +514,33 @@ class World:
             return self.server.sessions[-1].ep
         return None
 
+    def observe_sends(self, conn):
+        """Record how every send_message of this connection ends, at the moment it returns (a caller that awaits it
+        through gather() / a queued task learns of it one or two loop slots later)."""
+        if conn is None or getattr(conn, '_c10_send_observed', False):
+            return
+        conn._c10_send_observed = True
+        orig = conn.send_message
+        rec = self.rec
+
+        async def send_message(message):
+            rid = rec.idx(conn)
+            w0 = rec.wires.get(rid, 0)
+            try:
+                res = await orig(message)
+            except asyncio.CancelledError:
+                rec.sent(rid, 'cancelled', rec.wires.get(rid, 0) > w0)
+                raise
+            except Exception:
+                rec.sent(rid, 'raised', rec.wires.get(rid, 0) > w0)
+                raise
+            rec.sent(rid, 'ok', rec.wires.get(rid, 0) > w0)
+            return res
+        conn.send_message = send_message
+
     async def _send(self, mc, queued=False):
+        """One send through the public API (how it ended is recorded by observe_sends)."""
+        self.observe_sends(mc.conn)
         try:
             if mc.kind == 'server':
                 await self.network.send_server_messages(self.msg_for(mc))
@@ -454,8 +596,10 @@ class World:
         self.rec.quiescent()
         return True
 
-    async def a_OutCreate(self, mc):
+    async def a_OutCreate(self, mc, via=None):
         M = self.M
+        if via is not None:
+            mc.via = via
         port = mc.port + (1 if mc.obf else 0)
         self.gates[port] = self.loop.create_future()
         self.by_port[port] = mc
@@ -527,12 +671,34 @@ class World:
         mc.task.cancel()
 
     a_ConnectCancelledDrain = a_ConnectCancelledOpen
+    a_ConnectCancelledReport = a_ConnectCancelledOpen
+    a_ConnectCancelledInDisconnect = a_ConnectCancelledOpen
+
+    def _real(self, mc):
+        if mc.conn is None:
+            self.adopt_new(mc)
+        return mc.conn
+
+    async def a_ReportDone(self, mc):
+        conn = self._real(mc)
+        if conn is None or not self.listener.release(conn, ('CONNECTING', 'CONNECTED')):
+            return False
+
+    async def a_DiscGo(self, mc):
+        conn = self._real(mc)
+        if conn is None or not self.listener.release(conn, ('CLOSING',)):
+            return False
+
+    async def a_DiscDone(self, mc):
+        conn = self._real(mc)
+        if conn is None or not self.listener.release(conn, ('CLOSED',)):
+            return False
 
     async def a_DrainResume(self, mc):
         w = self.writer(mc)
         if w is None:
             return False
-        w.resume()
+        wake_writer(w)
 
     async def wait_timeout(self, mc, seconds, rounds=3):
         """Silence for `seconds` (again if the deadline was shifted by a send) until the connection reacts."""
@@ -606,7 +772,13 @@ class World:
         w = self.writer(mc)
         if w is None:
             return False
-        w.resume()
+        wake_writer(w)
+
+    async def a_SendWakeError(self, mc):
+        w = self.writer(mc)
+        if w is None:
+            return False
+        wake_writer(w, error=True)
 
     async def a_WriteError(self, mc):
         w = self.writer(mc)
@@ -649,6 +821,12 @@ class World:
     # -- after the behaviour ------------------------------------------------------------
     async def epilogue(self):
         rec, loop = self.rec, self.loop
+        if self.listener.active or self.listener.held:
+            rec.stim('slow listener lets every report go')
+            for _ in range(8):
+                self.listener.release_all()
+                await vloop.settle(loop)
+            rec.quiescent()
         # (1) nothing may leave or be delivered on a connection that reported CLOSED
         rec.stim('probe closed connections')
         for mc in self.mcs.values():
@@ -664,7 +842,7 @@ class World:
         for link in self.net.links:
             for w in link.writers:
                 w.release_wait_closed()
-                w.resume()
+                wake_writer(w)
         await vloop.settle(loop)
         await asyncio.sleep(700)
         await vloop.settle(loop)
@@ -686,7 +864,8 @@ def replay_behaviour(init_kinds, labels, seed_rng, *, hold, variant):
 
     async def main(loop):
         has_server_mc = any(k == 'server' for k, _ in init_kinds.values())
-        w = World(loop, seed_rng, server_auto=not has_server_mc, hold=hold, burst=variant.get('burst', 0.0))
+        w = World(loop, seed_rng, server_auto=not has_server_mc, hold=hold, burst=variant.get('burst', 0.0),
+                  slow=bool(variant.get('slow')))
         try:
             await w.start()
             for c, (kind, obf) in init_kinds.items():
@@ -851,6 +1030,132 @@ async def _scn_disconnect_while_connecting(w: World, via: str):
         task.exception()
 
 
+async def _scn_slow_connecting_report(w: World, how: str):
+    """A suspending listener is still handling the CONNECTING report when the connection is disconnected
+    (how = 'network': Network.disconnect(), 'conn': connection.disconnect()); then the report ends and the TCP connect
+    completes."""
+    from aioslsk.network.connection import CloseReason
+    loop, rec = w.loop, w.rec
+    port = 7600
+    peer = simserver.ScriptedPeer(w.net, 'slowrep', port)
+    await peer.listen()
+    w.listener.exclude.append(w.network.server_connection)
+    w.listener.only = {'CONNECTING'}
+    w.listener.active = True
+    rec.stim('create_peer_connection; the CONNECTING report is held by a listener')
+    task = asyncio.create_task(w.network.create_peer_connection('slowrep', 'P', ip='10.0.6.1', port=port))
+    await vloop.settle(loop)
+    conns = [c for c in w.known_peer_connections() if c.port == port]
+    for c in conns:
+        rec.att_fn[rec.idx(c)] = lambda: 'gone' if task.done() else 'running'
+    rec.quiescent()
+    rec.stim(f'disconnect ({how})')
+    if how == 'network':
+        await w.network.disconnect()
+    elif conns:
+        await conns[0].disconnect(CloseReason.REQUESTED)
+    await vloop.settle(loop)
+    rec.quiescent()
+    rec.stim('the listener returns')
+    w.listener.release_all()
+    await vloop.settle(loop)
+    rec.quiescent()
+    await asyncio.sleep(100)
+    await vloop.settle(loop)
+    rec.quiescent()
+    if not task.done():
+        task.cancel()
+    elif not task.cancelled():
+        task.exception()
+
+
+async def _scn_slow_closed_report(w: World, how: str):
+    """The attempt is cancelled while a suspending listener handles the CLOSED report of its failed connect.
+    how = 'api': the caller cancels create_peer_connection to a refused port;  'race': RACE mode, the direct connect
+    is refused and is reporting CLOSED when the peer pierces the firewall, so the library cancels the direct task."""
+    M, loop, rec = w.M, w.loop, w.rec
+    port = 7700
+    w.net.policy = lambda host, p, _prev=w.net.policy: 'refuse' if p == port else _prev(host, p)
+    w.server.addresses['refuser'] = ('10.0.7.1', port, 0)
+    w.listener.exclude.append(w.network.server_connection)
+    w.listener.only = {'CLOSED'}
+    w.listener.active = True
+    rec.stim(f'create_peer_connection ({how}); connect refused; the CLOSED report is held by a listener')
+    if how == 'api':
+        task = asyncio.create_task(w.network.create_peer_connection('refuser', 'P', ip='10.0.7.1', port=port))
+    else:
+        task = asyncio.create_task(w.network.create_peer_connection('refuser', 'P'))
+    await vloop.settle(loop)
+    for c in w.known_peer_connections():
+        if c.port == port:
+            rec.att_fn[rec.idx(c)] = lambda: 'gone' if task.done() else 'running'
+    rec.quiescent()
+    if how == 'api':
+        rec.stim('the caller cancels the request')
+        task.cancel()
+    else:
+        reqs = w.server.requests(M.ConnectToPeer.Request)
+        rec.stim('the peer pierces the firewall: the indirect attempt wins')
+        if reqs:
+            await simserver.ScriptedPeer(w.net, 'refuser').pierce(LISTEN, reqs[-1].ticket)
+    await vloop.settle(loop)
+    rec.quiescent()
+    rec.stim('the listener returns')
+    w.listener.release_all()
+    await vloop.settle(loop)
+    rec.quiescent()
+    await asyncio.sleep(100)
+    await vloop.settle(loop)
+    rec.quiescent()
+    if not task.done():
+        task.cancel()
+    elif not task.cancelled():
+        task.exception()
+
+
+async def _scn_backpressure(w: World, how: str):
+    """A send is blocked in drain() (the peer does not read) when the connection ends: how = 'reset' / 'eof' (the
+    reader notices and completes CLOSING, CLOSED first) or 'local' (disconnect() stuck in wait_closed, then the peer
+    goes away).  Then the blocked drain() is woken the way a lost connection wakes it."""
+    from aioslsk.network.connection import CloseReason
+    M, loop, rec = w.M, w.loop, w.rec
+    peer = simserver.ScriptedPeer(w.net, 'sink', 7800)
+    eps = []
+    peer.on_accept = eps.append
+    await peer.listen()
+    conn = await w.network.create_peer_connection('sink', 'P', ip='10.0.8.1', port=7800)
+    await vloop.settle(loop)
+    mc = ModelConn(1, 'out', False)
+    mc.conn, mc.rid, mc.ep = conn, rec.idx(conn), eps[0]
+    mc.link, mc.side = eps[0].link, 0
+    wr = mc.link.writers[0]
+    install_backpressure(wr)
+    rec.quiescent()
+    rec.stim('send under back-pressure')
+    wr.paused = True
+    w.spawn(w._send(mc))
+    await vloop.settle(loop)
+    rec.quiescent()
+    rec.stim(f'the connection ends: {how}')
+    if how == 'reset':
+        mc.link.cut('reset')
+    elif how == 'eof':
+        eps[0].close()
+    else:
+        wr.hold_wait_closed = True
+        w.spawn(conn.disconnect(CloseReason.REQUESTED))
+        await vloop.settle(loop)
+        rec.quiescent()
+        mc.link.cut('reset')
+        wr.release_wait_closed()
+    await vloop.settle(loop)
+    rec.quiescent()
+    rec.stim('the blocked drain() is woken by the lost connection')
+    wake_writer(wr, error=True)
+    await vloop.settle(loop)
+    rec.quiescent()
+
+
 async def _scn_concurrent_disconnects(w: World, kind: str):
     """Several callers disconnect the same connection while wait_closed is held and the remote end closes too."""
     from aioslsk.network.connection import CloseReason
@@ -890,6 +1195,7 @@ def run_network_scenario(rng, name, fn, **world_kw):
         try:
             await w.start()
             await fn(w)
+            w.listener.release_all()
             w.rec.stim('network.disconnect')
             await w.network.disconnect()
             await vloop.settle(loop)
@@ -1007,6 +1313,16 @@ def scenarios(seed, tmpdir) -> dict:
     for via in ('api', 'ctp'):
         scn[f'disconnect-while-connecting:{via}'] = lambda v=via: run_network_scenario(
             rng('dwc'), 'dwc', lambda wd: _scn_disconnect_while_connecting(wd, v), hold=False)
+    for how in ('network', 'conn'):
+        scn[f'slow-listener:disconnect-during-CONNECTING-report:{how}'] = lambda h=how: run_network_scenario(
+            rng('slowcg'), 'slowcg', lambda wd: _scn_slow_connecting_report(wd, h), hold=False)
+    for how in ('api', 'race'):
+        scn[f'slow-listener:cancel-during-CLOSED-report:{how}'] = lambda h=how: run_network_scenario(
+            rng('slowcd'), 'slowcd', lambda wd: _scn_slow_closed_report(wd, h),
+            connect_mode='race' if h == 'race' else 'fallback', hold=False)
+    for how in ('reset', 'eof', 'local'):
+        scn[f'backpressure:{how}'] = lambda h=how: run_network_scenario(
+            rng('bp'), 'bp', lambda wd: _scn_backpressure(wd, h), hold=False)
     for kind in ('in', 'out'):
         scn[f'concurrent-disconnects:{kind}'] = lambda k=kind: run_network_scenario(
             rng('conc'), 'conc', lambda wd: _scn_concurrent_disconnects(wd, k), hold=False)
@@ -1071,12 +1387,41 @@ def _fingerprint(tid, info, trace):
                     bad.append(f"{c['kind']}:{last}:attempt-{c['att']}:never-closed")
         what = bad[0] if bad else '?'
         if what.startswith(('out:CONNECTING:attempt-gone', 'server:CONNECTING:attempt-gone')):
-            return 'C10:DataConnection.connect:cancelled-connect-left-CONNECTING'
+            i = next(k for k, c in sorted(st.items()) if f"{c['kind']}:" in what and c['rep'] and c['rep'][-1] == 'CONNECTING')
+            held = [e for e in trace[1:int(at) - 1] if e['ev'] == 'q' and len(e.get('held', ())) >= i and e['held'][i - 1]]
+            return 'C10:DataConnection.connect:cancelled-connect-left-CONNECTING' + (':during-report' if held else '')
+        if 'CLOSING:attempt-gone:never-closed' in what:
+            return 'C10:DataConnection.disconnect:cancelled-in-CLOSING-report-never-CLOSED'
         return f'C10:{"registry" if name == "RegistryExactT" else "life-end"}:{what}'
+    if ev.get('ev') == 'sent':
+        return f"C10:send-returned-success-after-CLOSED:{st[ev['c']]['kind']}"
     if ev.get('ev') in ('wire', 'deliver'):
         c = st[ev['c']]
         return f"C10:{'send' if ev['ev'] == 'wire' else 'delivery'}-after-CLOSED:{c['kind']}"
     return f"C10:{name}"
+
+
+def judge(traces, *, diagnose=True, timeout=2400, strict_sample=None):
+    """TLC judges recorded executions.  Accepted = the generic reading (observables + properties; TraceGeneric.cfg)
+    accepts.  The strict reading (Trace.cfg: every record an action of the design spec, with silent internal steps - a
+    much larger search) only adds the fidelity mark and is run on `strict_sample` (1-based trace numbers; None = none)."""
+    import os
+    workers = int(os.environ.get('VERIF_TLC_WORKERS', '8'))
+    v = tlc.validate_traces(TRACE, 'TraceGeneric.cfg', traces, max_diag=0, timeout=timeout, workers=workers)
+    if diagnose:
+        diagnose_rejected(v, traces)
+    if strict_sample:
+        sample = [t for t in strict_sample if t in v.accepted]
+        sv = tlc.validate_traces(TRACE, 'Trace.cfg', [traces[t - 1] for t in sample], max_diag=0, timeout=timeout,
+                                 workers=workers)
+        v.strict_checked = set(sample)
+        for k, t in enumerate(sample, start=1):
+            if 'strict' in sv.accepted.get(k, ()):
+                v.accepted[t].add('strict')
+        if v.result is not None and sv.result is not None:
+            v.result.distinct_states += sv.result.distinct_states
+            v.result.states_generated += sv.result.states_generated
+    return v
 
 
 def diagnose_rejected(v, traces):
@@ -1170,7 +1515,12 @@ def dump_graph_all_states(spec, cfg, **kw):
 
 
 def _settled(r) -> bool:
-    return r['dpc'] == '-' and r['apc'] not in ('begin', 'sendinit', 'finalize', 'finish')
+    return r['dpc'] == '-' and r['apc'] not in ('begin', 'sendinit', 'finalize', 'finish', 'repCONNECTING',
+                                                 'repCONNECTED', 'repACCEPT')
+
+
+def _control(r) -> tuple:
+    return tuple(str(r[k]) for k in ('kind', 'hnd', 'cs', 'inReg', 'att', 'cnc', 'apc', 'rd', 'wr', 'dpc', 'dby', 'sblk'))
 
 
 def _follows(real, model, settled) -> bool:
@@ -1180,27 +1530,40 @@ def _follows(real, model, settled) -> bool:
 def collect_behaviours(chk: Check, thorough: bool):
     """[(init_kinds, labels, source, final model rep per conn or None)]"""
     behs = []
-    g, res = dump_graph_all_states(SPEC, 'MC_cover.cfg', timeout=900)
-    if not res.ok:
-        raise MachineryFailure(f'graph dump failed: {[(i.kind, i.name) for i in res.issues]}')
-    paths = tlc.path_cover(g)
-    chk.cov['graph_states_cover'] = g.n_states
-    chk.cov['graph_edges_cover'] = len(g.edges)
-    chk.cov['cover_paths'] = len(paths)
-    for p in paths:
-        init = g.states[p[0][0]]
-        last = g.states[p[-1][2]]
-        kinds = _init_kinds(init)
-        behs.append((kinds, [e[1] for e in p], 'cover', {c: list(_conn_of(last, c)['rep']) for c in kinds},
-                     {c: _settled(_conn_of(last, c)) for c in kinds}))
-    chk.log(f'graph: {g.n_states} states, {len(g.edges)} edges, {len(paths)} cover paths')
+    # 'cover': reports return at once (stimuli between reports);  'slow': every report of the connection is held by a
+    # suspending listener and released by the behaviour (stimuli inside the reports)
+    for source, cfg in (('cover', 'MC_cover.cfg'), ('slow', 'MC_cover_slow.cfg')):
+        g, res = dump_graph_all_states(SPEC, cfg, timeout=900)
+        if not res.ok:
+            raise MachineryFailure(f'graph dump failed: {[(i.kind, i.name) for i in res.issues]}')
+        paths = tlc.path_cover(g)
+        chk.cov[f'graph_states_{source}'] = g.n_states
+        chk.cov[f'graph_edges_{source}'] = len(g.edges)
+        chk.cov[f'{source}_paths'] = len(paths)
+        seen = set()
+        for p in paths:
+            init = g.states[p[0][0]]
+            last = g.states[p[-1][2]]
+            kinds = _init_kinds(init)
+            # quick-tier selection: the paths that cover every transition up to the history counters (deliveries, sends,
+            # API calls, server lives), i.e. every (action, control state of the connection) pair
+            new = False
+            for e in p:
+                key = (e[1], _control(_conn_of(g.states[e[0]], 1)))
+                if key not in seen:
+                    seen.add(key)
+                    new = True
+            behs.append((kinds, [e[1] for e in p], source, {c: list(_conn_of(last, c)['rep']) for c in kinds},
+                         {c: _settled(_conn_of(last, c)) for c in kinds}, new))
+        chk.cov[f'{source}_paths_control_cover'] = sum(1 for b in behs if b[2] == source and b[5])
+        chk.log(f'graph {cfg}: {g.n_states} states, {len(g.edges)} edges, {len(paths)} cover paths')
     if thorough:
         sims, sres = tlc.simulate_behaviours(SPEC, 'MC_two.cfg', num=1500, depth=28, seed=chk.seed + 1, timeout=900)
         for b in sims:
             kinds = _init_kinds(b[0][1])
             behs.append((kinds, [lab for lab, _ in b[1:]], 'sim2',
                          {c: list(_conn_of(b[-1][1], c)['rep']) for c in kinds},
-                         {c: _settled(_conn_of(b[-1][1], c)) for c in kinds}))
+                         {c: _settled(_conn_of(b[-1][1], c)) for c in kinds}, True))
         chk.cov['sim_behaviours_two'] = len(sims)
         chk.log(f'simulation: {len(sims)} behaviours of the two-connection model')
     return behs
@@ -1208,20 +1571,23 @@ def collect_behaviours(chk: Check, thorough: bool):
 
 def run(chk: Check, args):
     thorough = chk.tier == 'thorough'
-    chk.cov['rule'] = ('behaviours = edge cover of the one-connection state graph of ConnLifecycle (every kind, '
-                       'plain/obfuscated) + simulated two-connection behaviours (thorough); each is executed on a '
-                       'real Network over the simulated net, with wait_closed held (explicit DisconnectEnd) and '
-                       'again with natural timing, direct/ConnectToPeer creation, P/D connection types; plus '
-                       'hand-written race/Network.disconnect/whole-client scenarios; distinct = distinct recorded '
-                       'traces; non-trivial = the trace contains at least one reported state of a peer or server '
-                       'connection beyond the fixture')
+    chk.cov['rule'] = ('behaviours = paths through the one-connection state graphs of ConnLifecycle (reports returning at '
+                       'once; every report held by a suspending listener) covering every (action, control state) pair '
+                       '(quick) / every edge (thorough) + simulated two-connection behaviours (thorough); each is '
+                       'executed on a real Network over the simulated net, with wait_closed held (explicit '
+                       'DisconnectEnd), with natural timing and with sub-slot bursts, plain/obfuscated, P/D connection '
+                       'types; plus hand-written race / Network.disconnect / slow-listener / back-pressure / '
+                       'whole-client scenarios; distinct = distinct recorded traces; non-trivial = the trace contains '
+                       'at least one reported state of a peer or server connection beyond the fixture')
     # -- design model ---------------------------------------------------------------
     r = tlc.model_check(SPEC, 'MC_one.cfg', expect_actions=EXPECT_ACTIONS, timeout=900)
-    chk.add_model('ConnLifecycle 1 connection, all kinds (exhaustive)', r)
+    chk.add_model('ConnLifecycle 1 connection, all kinds, suspending listeners (exhaustive)', r)
     teeth = {}
     for cfg, expected in (('MC_orig_accept.cfg', {'Monotone', 'NothingAfterClosed'}),
                           ('MC_orig_cancel.cfg', {'RegistryExact', 'ClosedWhenEnded'}),
-                          ('MC_orig_connect.cfg', {'Monotone', 'NothingAfterClosed', 'NoSendAfterClosed'})):
+                          ('MC_orig_connect.cfg', {'Monotone', 'NothingAfterClosed', 'NoSendAfterClosed'}),
+                          ('MC_orig_connecting_report.cfg', {'RegistryExact', 'ClosedWhenEnded'}),
+                          ('MC_orig_closing_report.cfg', {'RegistryExact', 'ClosedWhenEnded'})):
         rs = tlc.run_tlc(SPEC, cfg, timeout=900)
         hit = sorted(i.name for i in rs.issues if i.name in expected)
         teeth[cfg] = hit
@@ -1230,30 +1596,31 @@ def run(chk: Check, args):
     chk.cov['binding_selftest']['as_found_design_models_violate'] = teeth
     if thorough:
         r2 = tlc.model_check(SPEC, 'MC_two.cfg', timeout=3000)
-        chk.add_model('ConnLifecycle 2 connections, all kinds (exhaustive)', r2)
+        chk.add_model('ConnLifecycle 2 connections, all kinds, reports return at once (exhaustive)', r2)
+        r3 = tlc.model_check(SPEC, 'MC_two_slow.cfg', timeout=3000)
+        chk.add_model('ConnLifecycle 2 connections, all kinds, suspending listeners (exhaustive)', r3)
 
     # -- replay ------------------------------------------------------------------------
     behs = collect_behaviours(chk, thorough)
     if not thorough:
         # quick: every cover path of a peer connection, a seeded sample of the server connection's (its second
         # life repeats the first)
-        peers = [b for b in behs if any(k != 'server' for k, _ in b[0].values())]
-        servers = [b for b in behs if all(k == 'server' for k, _ in b[0].values())]
-        if len(servers) > 200:
-            servers = [servers[i] for i in sorted(chk.rng.sample(range(len(servers)), 200))]
-        behs = peers + servers
+        behs = [b for b in behs if b[5]]
     chk.cov['cover_paths_replayed'] = sum(1 for b in behs if b[2] == 'cover')
+    chk.cov['slow_paths_replayed'] = sum(1 for b in behs if b[2] == 'slow')
     chk.cov['exhaustive'] = thorough        # thorough: the whole transition cover of the finite model is replayed
     traces, metas = [], []
     agree = [0, 0]
     too_many = 0
-    for n, (kinds, labels, source, model_rep, settled) in enumerate(behs):
+    for n, (kinds, labels, source, model_rep, settled, _) in enumerate(behs):
         # concretisation: plain/obfuscated, created by create_peer_connection / by a ConnectToPeer, type P / D
         kinds = {c: (k, k != 'server' and (o or (n + c) % 2 == 1)) for c, (k, o) in kinds.items()}
         runs = [(True, dict(via='api' if (n // 2) % 2 == 0 else 'ctp', typ='P' if n % 3 else 'D'))]
-        if thorough or n % 4 == 0:
+        if source == 'slow':
+            runs = [(True, dict(slow=True, typ='P' if n % 3 else 'D'))]
+        elif thorough or n % 4 == 0:
             runs.append((False, dict(via='ctp' if (n // 2) % 2 == 0 else 'api', typ='P')))
-        if thorough or n % 6 == 1:
+        if source != 'slow' and (thorough or n % 6 == 1):
             # sub-slot schedules: some stimuli are applied without letting the loop run in between
             runs.append((n % 2 == 0, dict(via='api' if n % 4 < 2 else 'ctp', typ='P', burst=0.4)))
         for hold, variant in runs:
@@ -1316,17 +1683,23 @@ def run(chk: Check, args):
         raise MachineryFailure(f'{blind} quiescent records have a CONNECTING outgoing connection whose attempt is unknown')
 
     # -- B: TLC judges the recorded executions ------------------------------------------------
-    v = tlc.validate_traces(TRACE, 'Trace.cfg', traces, max_diag=0, timeout=2400,
-                            workers=int(__import__('os').environ.get('VERIF_TLC_WORKERS', '8')))
-    diagnose_rejected(v, traces)
+    # strict reading (fidelity only): a fixed-stride sample and the scenarios; its search multiplies the silent steps
+    # of independent connections, so traces with many connections are left to the thorough tier
+    step = max(1, len(traces) // (3000 if thorough else 240))
+    sample = sorted(t for t in set(range(1, len(traces) + 1, step)) |
+                    {t for t in range(1, len(traces) + 1) if metas[t - 1].get('source') == 'scenario'}
+                    if thorough or traces[t - 1][0]['n'] <= 3)
+    v = judge(traces, strict_sample=sample)
+    checked = getattr(v, 'strict_checked', set())
     strict = sum(1 for m in v.accepted.values() if 'strict' in m)
 
     def is_burst(t):
         return bool((metas[t - 1].get('variant') or {}).get('burst'))
-    settled_acc = [t for t in v.accepted if not is_burst(t)]
-    burst_acc = [t for t in v.accepted if is_burst(t)]
+    settled_acc = [t for t in v.accepted if t in checked and not is_burst(t)]
+    burst_acc = [t for t in v.accepted if t in checked and is_burst(t)]
     chk.cov['model_fidelity'] = dict(
-        what='accepted traces that are also explained action by action by the design spec (strict reading)',
+        what='accepted traces that are also explained action by action by the design spec (strict reading; run on '
+             'a fixed-stride sample of the traces and on every scenario)',
         stimuli_at_quiescent_points=f"{sum(1 for t in settled_acc if 'strict' in v.accepted[t])}/{len(settled_acc)}",
         sub_slot_schedules=f"{sum(1 for t in burst_acc if 'strict' in v.accepted[t])}/{len(burst_acc)}")
     only_generic = sorted(t for t in settled_acc if 'strict' not in v.accepted[t])
@@ -1350,7 +1723,7 @@ def run(chk: Check, args):
     # -- binding self-test: corrupted observations must be rejected ------------------------------------
     corrupted = _corruptions(traces)
     if corrupted:
-        cv = tlc.validate_traces(TRACE, 'Trace.cfg', [t for _, t in corrupted], max_diag=0, timeout=900)
+        cv = judge([t for _, t in corrupted], diagnose=False, timeout=900)
         res = {}
         for k, (what, _) in enumerate(corrupted, start=1):
             res.setdefault(what, [0, 0])
@@ -1375,7 +1748,7 @@ def _corruptions(traces):
     """Realistic observation faults; each must make the trace spec reject."""
     out = []
     want = {'unregistered-while-connecting': 3, 'swap-closing-closed': 3, 'duplicate-closed': 3, 'registry-leftover': 3, 'delivery-after-closed': 3,
-            'wire-after-closed': 3, 'connected-after-closed': 3}
+            'wire-after-closed': 3, 'connected-after-closed': 3, 'send-success-after-closed': 3}
     for tr in traces:
         if not any(want.values()):
             break
@@ -1419,6 +1792,11 @@ def _corruptions(traces):
             bad.insert(k + 1, dict(ev='deliver', c=c, msg='X', reg=list(e['reg'])))
             out.append(('delivery-after-closed', bad))
             want['delivery-after-closed'] -= 1
+        if want['send-success-after-closed']:
+            bad = copy.deepcopy(tr)
+            bad.insert(k + 1, dict(ev='sent', c=c, res='ok', wrote=True, reg=list(e['reg'])))
+            out.append(('send-success-after-closed', bad))
+            want['send-success-after-closed'] -= 1
         if want['wire-after-closed']:
             bad = copy.deepcopy(tr)
             bad.insert(k + 1, dict(ev='wire', c=c, n=4, reg=list(e['reg'])))
@@ -1452,8 +1830,7 @@ def replay(chk: Check, data: dict):
     tr = out['trace']
     for k, e in enumerate(tr, start=1):
         print(f'  {k:3d}', e)
-    v = tlc.validate_traces(TRACE, 'Trace.cfg', [tr], max_diag=0, timeout=600)
-    diagnose_rejected(v, [tr])
+    v = judge([tr], timeout=600, strict_sample=[1])
     for tidk in list(v.accepted):
         print('  accepted; readings:', sorted(v.accepted[tidk]))
         v.accepted[tidk] = set()
